@@ -32,7 +32,8 @@ field("_element_type", RefOf(T))
 
 CV = P + "cpp_representation.cpp_value"
 field("_expression", Str)
-field("_scope", Ref)
+SCOPE = pseudo_base("verif.ScopeToken", [P + "util_scope.gc_scope", P + "util_scope.gc_scope_top_level"])
+field("_scope", RefOf(SCOPE))
 field("_cpp_type", RefOf(T))
 field("_initial_value", RefOf(CV))
 
@@ -67,17 +68,17 @@ field("attr", Str)
 field("slice", Ref)
 field("n", PYVAL)
 field("s", Str)
-field("rep", Ref)      # dynamic attribute set by crep.set_rep; null = absent
-field("scope", Ref)    # dynamic attribute set by crep.set_rep(.., scope); null = absent
+field("rep", RefOf(P + "cpp_representation.cpp_rep_base"))      # dynamic attribute set by crep.set_rep; null = absent
+field("scope", RefOf(SCOPE))    # dynamic attribute set by crep.set_rep(.., scope); null = absent
 
 # ---------------------------------------------------------------- C++ representations
 REP = RefOf(P + "cpp_representation.cpp_rep_base")
 SEQ = P + "cpp_representation.cpp_sequence"
-field("_sequence", Ref)
-field("_iterator", Ref)
-field("_type", Ref, cls=SEQ)
+field("_sequence", RefOf(P + "cpp_representation.cpp_rep_base"))
+field("_iterator", RefOf(P + "cpp_representation.cpp_value"))
+field("_type", RefOf(P + "cpp_types.terminal"), cls=SEQ)
 field("_node", Ref)
-field("_values", TList(Ref))
+field("_values", TList(RefOf(P + "cpp_representation.cpp_rep_base")))
 field("_values", TDict(Ref, Ref), cls=P + "cpp_representation.cpp_dict")
 field("filename", Str)
 field("treename", Str)
@@ -87,17 +88,17 @@ BLOCK = P + "statement.block"
 field("_statements", TList(Ref))
 field("_variables", TList(Ref))
 field("_rep_dict", TDict(Ref, Ref))
-field("_collection", Ref)
-field("_loop_variable", Ref)
-field("_expr", Ref)
-field("_target", Ref)
-field("_value", Ref)
+field("_collection", RefOf(P + "cpp_representation.cpp_value"))
+field("_loop_variable", RefOf(P + "cpp_representation.cpp_value"))
+field("_expr", RefOf(P + "cpp_representation.cpp_value"))
+field("_target", RefOf(P + "cpp_representation.cpp_value"))
+field("_value", RefOf(P + "cpp_representation.cpp_value"))
 field("_line", Str)
 field("_tree_name", Str)
 field("_leaves", TList(TTup([Str, Ref])))
 field("_scope_stack", TList(Ref))
-field("_block", Ref)
-field("_book_block", Ref)
+field("_block", RefOf(BLOCK))
+field("_book_block", RefOf(BLOCK))
 field("_class_vars", TList(Ref))
 field("_include_files", TList(Str))
 field("_link_libraries", TList(Str))
